@@ -132,6 +132,8 @@ type Result struct {
 	NoPkg    bool     // the parser produced no package
 	Panic    string   // a panic escaped NewPackage / WriteTo ("" if none)
 	Stack    string   // its stack
+	ParserPanic string // the parser itself panicked
+	WritePanic  string // NewPackage returned err == nil and gogen's WriteTo panicked
 	Bodiless bool     // an XGo file declares a func without body
 	Errs     []string // error list of NewPackage (each Error() string)
 	ErrPos   []string // position part "file:line:col" of each error that carries one ("" otherwise)
@@ -193,7 +195,19 @@ func Compile(exp Exports, files []File, o Options) (r Result) {
 			r.Stack = string(debug.Stack())
 		}
 	}()
-	pkgs, err := parser.ParseFSDir(fset, fs, dir, parser.Config{ClassKind: ClassKind, Mode: parser.ParseComments})
+	var pkgs map[string]*ast.Package
+	var err error
+	func() {
+		defer func() {
+			if e := recover(); e != nil { // the PARSER panicked (C13's business, not the compiler's)
+				r.ParserPanic = fmt.Sprint(e)
+			}
+		}()
+		pkgs, err = parser.ParseFSDir(fset, fs, dir, parser.Config{ClassKind: ClassKind, Mode: parser.ParseComments})
+	}()
+	if r.ParserPanic != "" {
+		return
+	}
 	if err != nil {
 		r.ParseErr = err.Error()
 		if !o.partial || pkgs == nil {
@@ -236,11 +250,20 @@ func Compile(exp Exports, files []File, o Options) (r Result) {
 		return
 	}
 	var b bytes.Buffer
-	if err := out.WriteTo(&b); err != nil {
-		r.WriteErr = err.Error()
-		return
+	func() {
+		defer func() {
+			if e := recover(); e != nil { // gogen's WriteTo panicked on the package cl built
+				r.WritePanic = fmt.Sprint(e)
+				r.Stack = string(debug.Stack())
+			}
+		}()
+		if err := out.WriteTo(&b); err != nil {
+			r.WriteErr = err.Error()
+		}
+	}()
+	if r.WritePanic == "" && r.WriteErr == "" {
+		r.Go = b.String()
 	}
-	r.Go = b.String()
 	return
 }
 
